@@ -4,6 +4,7 @@ use serde_json::Value;
 pub mod c01;
 pub mod c02;
 pub mod c03;
+pub mod c05;
 pub mod c16;
 
 pub fn load_case(path: &str) -> Value {
@@ -36,6 +37,7 @@ pub fn dispatch(id: &str, tier: Tier, replay: Option<&str>) {
         "c01" => c01::run(tier, replay),
         "c02" => c02::run(tier, replay),
         "c03" => c03::run(tier, replay),
+        "c05" => c05::run(tier, replay),
         "c16" => c16::run(tier, replay),
         _ => {
             eprintln!("unknown check {id}");
